@@ -12,7 +12,8 @@ fails.  The created namespaces take part in the finish-time validation.  So the 
 Errors by class: a rejected value is `Err.validation` (`ValueError` in the code); a name that does not resolve is
 `Err.valueError` (`ValueError` of `get_port`); walking *through* a leaf port is `Err.attributeError` (an `OutputPort`
 has no `get_port`) when segments remain and `Err.typeError` when the leaf is the last namespace segment (`port[name]`
-on an `OutputPort`); storing below an emitted value that is not a mapping is `Err.typeError` (item assignment).
+on an `OutputPort`); storing directly below an emitted value that is not a mapping is `Err.typeError` (item assignment), deeper below it
+`Err.attributeError` (`setdefault` on it).
 -/
 namespace Ports
 
@@ -55,7 +56,10 @@ def store (outputs : Items) : List String → String → V → Except Err Items
           match store sub rest name v with
           | .ok sub' => .ok (setKey s (.dict fr sub') outputs)
           | .error e => .error e
-      | some (.atom _ _) => .error .typeError                 -- `5['b'] = v`
+      | some (.atom _ _) =>
+          match rest with
+          | [] => .error .typeError                            -- `5['b'] = v`
+          | _ :: _ => .error .attributeError                   -- `5.setdefault('b', {})`
 
 /-- state of the output side of one process (and of its class: `top`, `ports`) -/
 structure OutSt where
